@@ -13,7 +13,7 @@ META = {
             "handles is in the FIRST set that guards its call sites; the postfix continuation is reached at every min_bp; G4 the "
             "generated typed accessors of one node use each position once per target type, and no two accessors of one node "
             "have target types that cast the same child kind (else both return the same child). Non-trivial = an operator "
-            "pair, a def-use chain or an accessor pair.",
+            "pair, a def-use chain or an accessor pair. G3 also per call site (the guarding set contains the callee's FIRST set); G5 every child kind the parser can put under a node kind (engine S) is castable by the target type of some accessor of that node's AST type, or is reviewed; G6 Gleam's number literal forms are matched as a whole by the regex of their token kind, and `0.1` in a tuple-index chain is not taken by a longer token.",
     "explanation": "The Pratt loop touches binding powers only through `lbp < min_bp`, `lbp == min_bp` and passing rbp down, so "
                    "the grouping of `a op1 b op2 c` is decided, for all 23x23 operator pairs, by comparing numbers that engine T "
                    "reads off the MIR of infix_bp/prefix_bp. The oracle is Gleam's published precedence table (all binary "
@@ -272,6 +272,8 @@ def run(F, res, tier):
                        how="guard %s" % kdef.rsplit("::", 1)[-1] if not missing else "guard %s lacks %s" % (kdef.rsplit("::", 1)[-1], missing))
     res.floor("guarded call sites of expr/pattern/type_expr", nsites, 12)
     accessor_rules(F, res, pure, kinds)
+    slot_coverage(F, res, pure, kinds)
+    literal_lexemes(F, res, R)
 
 
 def thorough(F, res):
@@ -368,3 +370,126 @@ def accessor_rules(F, res, pure, kinds):
                        how=("reviewed: " + rv) if rv else "both target types cast %s: a child of that kind in the earlier slot is returned by both accessors" % ov,
                        reviewed=bool(rv))
     res.analysed["accessor_pairs_with_overlapping_cast_sets"] = npairs
+
+
+# (parent kind, child kind) pairs the parser can build and no typed accessor of the parent can see, read and accepted
+G5_REVIEWED = {
+    "attr": "attribute nodes (@external / @target) carry no Gleam names the analysis resolves; the typed AST deliberately does not expose them",
+    ("AS_PATTERN", "UNARY_OP"): "infeasible: after `-` / `!` the operand is parsed by a recursive pattern() call, which takes the `as name` tail "
+                                "itself; the outer call never sees `as` (the pair the parser really builds, AS_PATTERN under UNARY_OP, is a finding)",
+    "ill-formed": "only programs Gleam rejects put this child here (a constant initialised with a block / case / fn / pipe / spread / tuple index / "
+                  "todo; `-` or `!` in front of a pattern that is not a number; a guard containing todo; `\"a\" <> <pattern that is not a name>`): "
+                  "outside what C04 and C05 quantify over",
+    ("TYPE_APPLICATION", "HOLE"): "infeasible: type_expr() continues with an argument list only after a type name (its `type_application` flag is "
+                                  "set in the IDENT / U_IDENT arms only); the shape analysis takes every branch of that flag",
+}
+
+
+G5_ILL_FORMED = {("MODULE_CONSTANT", c) for c in ("BLOCK", "CASE", "LAMBDA", "PIPE", "EXPR_SPREAD", "TUPLE_INDEX", "MISSING")} | \
+    {("UNARY_OP", c) for c in ("PATTERN_CONCAT", "PATTERN_LIST", "PATTERN_SPREAD", "PATTERN_TUPLE", "PATTERN_VARIABLE", "VARIANT_REF")} | \
+    {("PATTERN_GUARD", "MISSING"), ("PATTERN_CONCAT", "UNARY_OP"), ("PATTERN_CONCAT", "BIT_ARRAY")}
+
+
+def slot_coverage(F, res, pure, kinds):
+    """G5: every child node the parser can put under a node of kind K is visible through some typed accessor of K's AST type
+    (the accessor's target type can cast the child's kind). A child no accessor can see is never lowered: names inside it do
+    not resolve, rename and find-references skip them. Children per parent kind come from lib/shape.py (every finish_node site)."""
+    from lib import shape
+    R = shape.results(F)
+    acc = accessors(F)
+    cast = {}
+
+    def castset(T):
+        if T not in cast:
+            p = "<%s as rowan::ast::AstNode>::can_cast" % T
+            out = set()
+            if p in F.fns:
+                for k in kinds:
+                    try:
+                        if pure.call(p, [("e", SK, k)]) == 1:
+                            out.add(k)
+                    except Exception:  # noqa
+                        pass
+            cast[T] = out
+        return cast[T]
+    types = [p[1:].split(" as ")[0] for p in F.fns if p.startswith("<syntax::ast::") and p.endswith(" as rowan::ast::AstNode>::can_cast")]
+    bykind = {}
+    for T in types:
+        cs = castset(T)
+        if len(cs) == 1:
+            bykind[next(iter(cs))] = T
+    res.floor("node kinds with a typed AST struct", len(bykind), 65)
+    res.floor("parent kinds whose children were enumerated", len(R["children"]), 66)
+    npairs = 0
+    for K, T in sorted(bykind.items()):
+        ch = set(R["children"].get(K, [])) - {"T", "?", "ERROR"}
+        sel = set()
+        for m, TT, s_ in acc.get(T, []):
+            sel |= castset(TT)
+        npairs += len(ch)
+        for C in sorted(ch - sel):
+            why = G5_REVIEWED.get((K, C)) or (G5_REVIEWED["attr"] if C.endswith("_ATTR") else None) or \
+                (G5_REVIEWED["ill-formed"] if (K, C) in G5_ILL_FORMED else None)
+            res.ob("G5", "invisible/%s/in/%s" % (C, K),
+                   "a %s child of a %s node is reachable through a typed accessor of %s" % (C, K, T.rsplit("::", 1)[-1]),
+                   bool(why), where="crates/syntax/src/ast.rs", reviewed=bool(why),
+                   how=("reviewed: " + why) if why else "the parser can put a %s under %s; the accessors of %s select %s - none can cast %s"
+                   % (C, K, T.rsplit("::", 1)[-1], sorted({TT.rsplit("::", 1)[-1] for _, TT, _ in acc.get(T, [])}), C))
+    res.analysed["parent_child_kind_pairs"] = npairs
+
+
+# Gleam's number literal forms (language tour / compiler-core lexer): decimal with `_` separators, binary, octal, hexadecimal;
+# floats with a fraction and an optional exponent. One lexeme per form.
+NUMBER_LEXEMES = {
+    "INTEGER": ["0", "42", "1_000_000", "0b0101", "0B11", "0o17", "0O7", "0xFF", "0xff_ab", "0XaB9"],
+    "FLOAT": ["1.0", "0.5", "1_000.000_1", "1.0e10", "2.5e-3", "1.0E+2"],
+}
+
+
+def literal_lexemes(F, res, R):
+    """G6: each form of number literal Gleam has is matched *as a whole* by the regex of the token kind it should become (read from
+    the #[regex] attributes of SyntaxKind). A form the regex matches only in part is split into several tokens and a well-formed
+    program gets a syntax error. This evaluates the lexer's own table on an oracle list - a necessary condition, not the lexer."""
+    import re as _re
+    la = R["lex_attrs"]
+    for kind, lexemes in sorted(NUMBER_LEXEMES.items()):
+        pats = []
+        for a in la.get(kind, []):
+            m = _re.search(r'#\[regex\(\s*r?#*"(.*)"#*\s*(?:,.*)?\)\]$', a)
+            if m:
+                pats.append(m.group(1).replace("\\\\", "\\"))
+        if not pats:
+            res.anchor_missing("G6", "#[regex] of SyntaxKind::%s" % kind)
+            continue
+        for lx in lexemes:
+            ok = False
+            for p_ in pats:
+                try:
+                    ok = ok or _re.fullmatch(p_, lx) is not None
+                except _re.error:
+                    res.anchor_missing("G6", "regex of %s not understood: %s" % (kind, p_))
+            longest = max((len(m.group(0)) for p_ in pats for m in [_re.match(p_, lx)] if m), default=0)
+            res.ob("G6", "lexeme/%s/%s" % (kind, lx), "the %s literal `%s` is one %s token" % (kind.lower(), lx, kind), ok,
+                   where="crates/syntax/src/kind.rs", how="regex %s matches the whole lexeme" % pats if ok else
+                   "regex %s matches only `%s`: the rest becomes further tokens" % (pats, lx[:longest]))
+    # tuple-index chains: after `.` the grammar takes INTEGER (engine S: TUPLE_INDEX = base `.` LITERAL) and the base may itself
+    # end in an INTEGER, so `0.1` must lex as INTEGER DOT INTEGER there. Maximal munch over the whole regex table decides.
+    pats = {}
+    for kind, attrs in la.items():
+        for a in attrs:
+            m = _re.search(r'#\[regex\(\s*r?#*"(.*)"#*\s*(?:,.*)?\)\]$', a)
+            if m:
+                pats.setdefault(kind, []).append(m.group(1).replace("\\\\", "\\"))
+    best = ("", 0)
+    for kind, ps in pats.items():
+        for p_ in ps:
+            try:
+                m = _re.match(p_, "0.1")
+            except _re.error:
+                continue
+            if m and len(m.group(0)) > best[1]:
+                best = (kind, len(m.group(0)))
+    ti = "TUPLE_INDEX" in R.get("finish_sites", {}) or any(v.get("kind") == "TUPLE_INDEX" for v in R["finish_sites"].values())
+    res.ob("G6", "adjacent/tuple-index-chain", "in `t.0.1` the text `0.1` after the first `.` is lexed as INTEGER `.` INTEGER (two tuple indices), "
+           "not swallowed by a longer token", ti and best[0] == "INTEGER" and best[1] == 1, where="crates/syntax/src/kind.rs",
+           how="longest match at `0.1`: %s (%d characters)" % best)
